@@ -3,7 +3,7 @@
    matchers, the Select row loop, the raw/down-sampled decision. *)
 From Coq Require Import List ZArith NArith String Ascii Bool Lia Arith Sorting.Sorted.
 From Qryn Require Import lib.Strs model.Sql model.SqlRender model.Logql model.LogqlPlan
-  model.PromSelect model.PromSel model.PromSem model.PromCase.
+  model.PromSelect model.PromSel model.PromSem model.ProfSel model.ProfSem model.PromCase.
 Import ListNotations.
 Open Scope string_scope.
 
@@ -1071,3 +1071,234 @@ Qed.
 Example contiguous_example :
   contiguousb [{| r_fp := 3; r_val := 1; r_ts := 10 |}; {| r_fp := 3; r_val := 4; r_ts := 20 |}; {| r_fp := 7; r_val := 2; r_ts := 5 |}] = true.
 Proof. reflexivity. Qed.
+
+(* ====================================================================================== *)
+(* I. profile selectors: the reading of the statement, and the Pyroscope meaning           *)
+(* ====================================================================================== *)
+Open Scope string_scope.
+Section PROF.
+  Variable re_match : string -> string -> bool.
+
+  Lemma split_selectors_spec sels :
+    let '(g, kv) := split_selectors sels in
+    (forall x, List.In x g <-> exists s p, List.In s sels /\ pseudo_of (sl_name s) = Some p /\ x = (p, sl_op s, sl_val s)) /\
+    (forall k, List.In k kv <-> List.In k sels /\ pseudo_of (sl_name k) = None).
+  Proof.
+    induction sels as [|s sels IH]; cbn [split_selectors].
+    - split; [intros x; split; [intros []|intros [s [p [[] _]]]]|intros k; split; [intros []|intros [[] _]]].
+    - destruct (split_selectors sels) as [g kv]. destruct IH as [IHg IHk].
+      destruct (pseudo_of (sl_name s)) as [p|] eqn:Hp.
+      + split.
+        * intros x. cbn [List.In]. rewrite IHg. split.
+          -- intros [<-|[s' [p' [Hs' [Hp' Hx]]]]]; [exists s, p; tauto|exists s', p'; tauto].
+          -- intros [s' [p' [[<-|Hs'] [Hp' ->]]]]; [left; congruence|right; exists s', p'; tauto].
+        * intros k. rewrite IHk. cbn [List.In]. split; [tauto|]. intros [[<-|Hk] Hn]; [congruence|tauto].
+      + split.
+        * intros x. rewrite IHg. cbn [List.In]. split.
+          -- intros [s' [p' [Hs' H]]]. exists s', p'. tauto.
+          -- intros [s' [p' [[<-|Hs'] [Hp' Hx]]]]; [congruence|exists s', p'; tauto].
+        * intros k. cbn [List.In]. rewrite IHk. split; [intros [<-|[H1 H2]]; tauto|]. intros [[<-|Hk] Hn]; tauto.
+  Qed.
+
+  Definition prow_sem (D1 D2 : Z) (g : list (pseudo * mop * string)) (rows : list pginrow) (fp : N) (r : pginrow) : Prop :=
+    List.In r rows /\ pg_fp r = fp /\ (D1 <= pg_date r)%Z /\ (pg_date r <= D2)%Z /\ forallb (fun x => global_ok re_match x r) g = true.
+
+  (* the reading of the profile selector statement: which fingerprints it returns *)
+  Theorem prof_sel_correct D1 D2 sels rows fp :
+    let '(g, kv) := split_selectors sels in
+    (List.length kv <= 8)%nat ->
+    (List.In fp (prof_fp_sel re_match D1 D2 sels rows) <->
+     match kv with
+     | [] => exists r, prow_sem D1 D2 g rows fp r
+     | _ => forall k, List.In k kv -> exists r, prow_sem D1 D2 g rows fp r /\ eval_clause re_match (sel_clause_of k) (to_gin r) = true
+     end).
+  Proof.
+    unfold prof_fp_sel. destruct (split_selectors sels) as [g kv]. intros Hlen.
+    assert (Hrow : forall cs r, List.In r (filter (prow_ok re_match D1 D2 g cs) rows) <->
+              List.In r rows /\ (D1 <= pg_date r)%Z /\ (pg_date r <= D2)%Z /\ forallb (fun x => global_ok re_match x r) g = true /\
+              match cs with [] => True | _ => existsb (fun c => eval_clause re_match c (to_gin r)) cs = true end).
+    { intros cs r. rewrite filter_In. unfold prow_ok. rewrite !andb_true_iff, !Z.leb_le.
+      destruct cs; [intuition|]. intuition. }
+    destruct kv as [|k0 kv'].
+    - cbn [map]. rewrite nodup_In, in_map_iff. unfold prow_sem. split.
+      + intros [r [Hfp Hr]]. apply Hrow in Hr. exists r. tauto.
+      + intros [r Hr]. exists r. split; [tauto|]. apply Hrow. tauto.
+    - cbn [map]. set (c0 := sel_clause_of k0). set (cs' := map sel_clause_of kv'). set (cs := c0 :: cs').
+      assert (Hmap : cs = map sel_clause_of (k0 :: kv')) by reflexivity.
+      rewrite filter_In, nodup_In, in_map_iff, N.eqb_eq.
+      rewrite (having_iff re_match cs) by (rewrite Hmap, map_length; lia).
+      assert (Hrow' : forall r, List.In r (filter (prow_ok re_match D1 D2 g cs) rows) <->
+                List.In r rows /\ (D1 <= pg_date r)%Z /\ (pg_date r <= D2)%Z /\ forallb (fun x => global_ok re_match x r) g = true /\
+                existsb (fun c => eval_clause re_match c (to_gin r)) cs = true) by (intros r; apply (Hrow cs r)).
+      split.
+      + intros [_ H] k Hk. destruct (H (sel_clause_of k)) as [r' [Hr' Hev]]; [rewrite Hmap; now apply in_map|].
+        unfold group_of in Hr'. apply filter_In in Hr'. destruct Hr' as [Hr' Hfp]. apply in_map_iff in Hr'.
+        destruct Hr' as [r [<- Hr]]. apply Hrow' in Hr. exists r. split; [|assumption].
+        unfold prow_sem. apply N.eqb_eq in Hfp. cbn [to_gin g_fp] in Hfp. tauto.
+      + intros H.
+        assert (Hin : forall c, List.In c cs -> exists r', List.In r' (group_of (map to_gin (filter (prow_ok re_match D1 D2 g cs) rows)) fp)
+                                                    /\ eval_clause re_match c r' = true).
+        { intros c Hc. rewrite Hmap in Hc. apply in_map_iff in Hc. destruct Hc as [k [<- Hk]].
+          destruct (H k Hk) as [r [[Hr [Hfp [Hd1 [Hd2 Hg]]]] Hev]]. exists (to_gin r). split; [|assumption].
+          unfold group_of. apply filter_In. split; [|cbn [to_gin g_fp]; now apply N.eqb_eq].
+          apply in_map. apply Hrow'. repeat split; try assumption.
+          apply existsb_exists. exists (sel_clause_of k). split; [rewrite Hmap; now apply in_map|assumption]. }
+        split; [|exact Hin].
+        destruct (Hin c0) as [r' [Hr' _]]; [now left|].
+        unfold group_of in Hr'. apply filter_In in Hr'. destruct Hr' as [Hr' Hfp]. apply in_map_iff in Hr'.
+        destruct Hr' as [r [<- Hr]]. exists r. split; [apply N.eqb_eq in Hfp; exact Hfp|exact Hr].
+  Qed.
+End PROF.
+
+Section PROFEXACT.
+  Variable re_match re_full : string -> string -> bool.
+  Hypothesis anchor_law : forall v p, re_match v (anchor p) = re_full v p.
+
+  Lemma psv_name s : sl_name (prof_selector_val s) = sl_name s.
+  Proof. unfold prof_selector_val. destruct (sl_op s); reflexivity. Qed.
+  Lemma psv_op s : sl_op (prof_selector_val s) = sl_op s.
+  Proof. unfold prof_selector_val. destruct (sl_op s) eqn:E; cbn; congruence. Qed.
+  Lemma cmp_anchor s x :
+    cmp_ok re_match (sl_op (prof_selector_val s)) (sl_val (prof_selector_val s)) x = cmp_ok re_full (sl_op s) (sl_val s) x.
+  Proof.
+    unfold prof_selector_val, cmp_ok. destruct (sl_op s) eqn:E; cbn [sl_op sl_val]; rewrite ?E; try reflexivity; now rewrite anchor_law.
+  Qed.
+  Lemma existsb_ext' {A} (f g : A -> bool) l : (forall x, f x = g x) -> existsb f l = existsb g l.
+  Proof. intros H. induction l as [|x l IH]; [reflexivity|]. cbn [existsb]. now rewrite H, IH. Qed.
+  Lemma pseudo_anchor p s parts svc stu :
+    pseudo_ok re_match p (sl_op (prof_selector_val s)) (sl_val (prof_selector_val s)) parts svc stu =
+    pseudo_ok re_full p (sl_op s) (sl_val s) parts svc stu.
+  Proof.
+    unfold pseudo_ok. destruct p; try apply cmp_anchor; apply existsb_ext'; intros; apply cmp_anchor.
+  Qed.
+  Lemma clause_anchor s r :
+    eval_clause re_match (sel_clause_of (prof_selector_val s)) r =
+    String.eqb (g_key r) (sl_name s) && prom_match_val re_full (sl_op s) (sl_val s) (g_val r).
+  Proof.
+    unfold eval_clause, sel_clause_of, clause_of. cbn [c_key c_cond m_name m_op m_val]. rewrite psv_name. f_equal.
+    unfold prof_selector_val, prom_match_val. destruct (sl_op s) eqn:E; cbn [sl_op sl_val eval_vcond]; rewrite ?E; cbn [eval_vcond]; try reflexivity.
+    - rewrite anchor_law. destruct (re_full (g_val r) (sl_val s)); reflexivity.
+    - rewrite anchor_law. destruct (re_full (g_val r) (sl_val s)); reflexivity.
+  Qed.
+
+  Definition row_of (s : pstored) (kv : string * string) : pginrow :=
+    {| pg_date := p_date s; pg_key := fst kv; pg_val := snd kv; pg_fp := p_fp s; pg_type_id := p_type_id s;
+       pg_service := p_service s; pg_stu := p_stu s |}.
+  Lemma pgin_of_in series r : List.In r (pgin_of series) <-> exists s kv, List.In s series /\ List.In kv (p_labels s) /\ r = row_of s kv.
+  Proof.
+    unfold pgin_of. rewrite in_flat_map. split.
+    - intros [s [Hs Hr]]. apply in_map_iff in Hr. destruct Hr as [kv [<- Hkv]]. exists s, kv. tauto.
+    - intros [s [kv [Hs [Hkv ->]]]]. exists s. split; [assumption|]. apply in_map_iff. exists kv. tauto.
+  Qed.
+
+  Record pdb_ok (series : list pstored) : Prop := {
+    plabels_functional : forall s1 s2, List.In s1 series -> List.In s2 series -> p_fp s1 = p_fp s2 -> p_labels s1 = p_labels s2;
+    pkeys_unique : forall s, List.In s series -> NoDup (map fst (p_labels s));
+    plabels_nonempty : forall s, List.In s series -> p_labels s <> []
+  }.
+  Definition selector_guard (series : list pstored) (sel : selector) : Prop :=
+    pseudo_of (sl_name sel) = None ->
+    prom_match_val re_full (sl_op sel) (sl_val sel) "" = false \/
+    (forall s, List.In s series -> has_label (p_labels s) (sl_name sel) = true).
+
+  Theorem prof_fp_select D1 D2 sels series fp :
+    pdb_ok series ->
+    (List.length (snd (split_selectors (map prof_selector_val sels))) <= 8)%nat ->
+    (forall sel, List.In sel sels -> selector_guard series sel) ->
+    (List.In fp (prof_fp_sel re_match D1 D2 (map prof_selector_val sels) (pgin_of series)) <->
+     List.In fp (prof_expected re_full D1 D2 sels series)).
+  Proof.
+    intros Hdb Hlen Hguard.
+    assert (Hcorr := prof_sel_correct re_match D1 D2 (map prof_selector_val sels) (pgin_of series) fp).
+    assert (Hspec := split_selectors_spec (map prof_selector_val sels)).
+    destruct (split_selectors (map prof_selector_val sels)) as [g kv]. cbn [snd] in Hlen.
+    destruct Hspec as [Hg Hkv]. rewrite (Hcorr Hlen). clear Hcorr.
+    (* facts used in both directions *)
+    assert (Hglob : forall s kv0, forallb (fun x => global_ok re_match x (row_of s kv0)) g = true <->
+                    (forall sel p, List.In sel sels -> pseudo_of (sl_name sel) = Some p ->
+                       pseudo_ok re_full p (sl_op sel) (sl_val sel) (split_char ":" (p_type_id s) "") (p_service s) (p_stu s) = true)).
+    { intros s kv0. rewrite forallb_forall. split.
+      - intros H sel p Hsel Hp. rewrite <- pseudo_anchor.
+        apply (H (p, sl_op (prof_selector_val sel), sl_val (prof_selector_val sel))).
+        apply Hg. exists (prof_selector_val sel), p. split; [now apply in_map|]. rewrite psv_name. tauto.
+      - intros H x Hx. apply Hg in Hx. destruct Hx as [s' [p [Hs' [Hp ->]]]]. apply in_map_iff in Hs'.
+        destruct Hs' as [sel [<- Hsel]]. rewrite psv_name in Hp. unfold global_ok, type_parts. cbn [row_of pg_type_id pg_service pg_stu].
+        rewrite pseudo_anchor. now apply (H sel p). }
+    assert (Hkv' : forall k, List.In k kv <-> exists sel, List.In sel sels /\ pseudo_of (sl_name sel) = None /\ k = prof_selector_val sel).
+    { intros k. rewrite Hkv. split.
+      - intros [Hk Hn]. apply in_map_iff in Hk. destruct Hk as [sel [<- Hsel]]. rewrite psv_name in Hn. exists sel. tauto.
+      - intros [sel [Hsel [Hn ->]]]. split; [now apply in_map|]. now rewrite psv_name. }
+    unfold prof_expected. rewrite nodup_In, in_map_iff.
+    assert (Hmatch : forall s, List.In s series -> p_fp s = fp -> (D1 <= p_date s)%Z -> (p_date s <= D2)%Z ->
+               (forall sel, List.In sel sels -> sel_matches re_full sel s = true) ->
+               exists s0, p_fp s0 = fp /\ List.In s0 (filter (fun s => (D1 <=? p_date s)%Z && (p_date s <=? D2)%Z && forallb (fun sel => sel_matches re_full sel s) sels) series)).
+    { intros s Hs Hfp Hd1 Hd2 Hall. exists s. split; [assumption|]. apply filter_In. split; [assumption|].
+      rewrite !andb_true_iff, !Z.leb_le, forallb_forall. tauto. }
+    split.
+    - (* the statement's answer satisfies the Pyroscope meaning *)
+      intros Hsem.
+      assert (Hsome : exists r, prow_sem re_match D1 D2 g (pgin_of series) fp r).
+      { destruct kv as [|k0 kv']; [exact Hsem|]. destruct (Hsem k0 (or_introl eq_refl)) as [r [Hr _]]. now exists r. }
+      destruct Hsome as [r0 [Hr0 [Hfp0 [Hd1 [Hd2 Hg0]]]]].
+      apply pgin_of_in in Hr0. destruct Hr0 as [s0 [kv0 [Hs0 [Hkv0 ->]]]]. cbn [row_of pg_fp pg_date] in Hfp0, Hd1, Hd2.
+      apply (Hmatch s0 Hs0 Hfp0 Hd1 Hd2). intros sel Hsel. unfold sel_matches.
+      destruct (pseudo_of (sl_name sel)) as [p|] eqn:Hp.
+      + now apply (proj1 (Hglob s0 kv0) Hg0 sel p).
+      + assert (Hk : List.In (prof_selector_val sel) kv) by (apply Hkv'; exists sel; tauto).
+        destruct kv as [|k0 kv']; [contradiction|].
+        destruct (Hsem _ Hk) as [r [[Hr [Hfp _]] Hev]].
+        apply pgin_of_in in Hr. destruct Hr as [s [[k v] [Hs [Hkvs ->]]]]. cbn [row_of pg_fp] in Hfp.
+        rewrite clause_anchor in Hev. cbn [to_gin row_of g_key g_val pg_key pg_val fst snd] in Hev.
+        apply andb_prop in Hev. destruct Hev as [Hkey Hval]. apply String.eqb_eq in Hkey. subst k.
+        assert (Hl : p_labels s = p_labels s0) by (apply (plabels_functional _ Hdb); congruence).
+        rewrite Hl in Hkvs. rewrite (label_value_in _ _ _ (pkeys_unique _ Hdb s0 Hs0) Hkvs). exact Hval.
+    - (* every series with the Pyroscope meaning is answered *)
+      intros [s [Hfp Hs]]. apply filter_In in Hs. destruct Hs as [Hs Hok].
+      rewrite !andb_true_iff, !Z.leb_le, forallb_forall in Hok. destruct Hok as [[Hd1 Hd2] Hall].
+      assert (Hrow : forall kv0, List.In kv0 (p_labels s) -> prow_sem re_match D1 D2 g (pgin_of series) fp (row_of s kv0)).
+      { intros kv0 Hkv0. unfold prow_sem. split; [apply pgin_of_in; exists s, kv0; tauto|]. cbn [row_of pg_fp pg_date].
+        split; [assumption|]. split; [assumption|]. split; [assumption|].
+        apply Hglob. intros sel p Hsel Hp. specialize (Hall sel Hsel). unfold sel_matches in Hall. now rewrite Hp in Hall. }
+      destruct kv as [|k0 kv'].
+      + destruct (p_labels s) as [|kv0 l] eqn:El; [exfalso; now apply (plabels_nonempty _ Hdb s Hs)|].
+        exists (row_of s kv0). apply Hrow. now left.
+      + intros k Hk. apply Hkv' in Hk. destruct Hk as [sel [Hsel [Hn ->]]].
+        assert (Hm := Hall sel Hsel). unfold sel_matches in Hm. rewrite Hn in Hm.
+        assert (Hhas : has_label (p_labels s) (sl_name sel) = true).
+        { destruct (Hguard sel Hsel Hn) as [Hrej|Hallhas]; [|now apply Hallhas].
+          destruct (has_label (p_labels s) (sl_name sel)) eqn:Hh; [reflexivity|].
+          rewrite (no_label_value _ _ Hh) in Hm. congruence. }
+        apply has_label_in in Hhas.
+        exists (row_of s (sl_name sel, label_value (p_labels s) (sl_name sel))). split; [now apply Hrow|].
+        rewrite clause_anchor. cbn [to_gin row_of g_key g_val pg_key pg_val fst snd]. rewrite String.eqb_refl. exact Hm.
+  Qed.
+End PROFEXACT.
+
+(* refutation witness: one stored profile series without a region label *)
+Definition pw_series : list pstored :=
+  [{| p_fp := 61; p_date := 19675; p_type_id := "process_cpu:cpu:nanoseconds"; p_service := "api";
+      p_stu := [("cpu", "nanoseconds")]; p_labels := [("pod", "p-1")] |}].
+Definition pw_sels : list selector := [{| sl_name := "region"; sl_op := MNeq; sl_val := "eu-west" |}].
+Lemma pw_db_ok : pdb_ok pw_series.
+Proof.
+  constructor.
+  - intros s1 s2 [<-|[]] [<-|[]] _. reflexivity.
+  - intros s [<-|[]]. cbn. repeat constructor. intros [].
+  - intros s [<-|[]]. discriminate.
+Qed.
+Lemma pw_selected : prof_fp_sel re_none 19675 19675 (map prof_selector_val pw_sels) (pgin_of pw_series) = [].
+Proof. vm_compute. reflexivity. Qed.
+Lemma pw_expected : prof_expected re_none 19675 19675 pw_sels pw_series = [61%N].
+Proof. vm_compute. reflexivity. Qed.
+(* non-vacuity of the partial theorem: a pseudo label and a present label, on the same series *)
+Definition pg_sels : list selector :=
+  [{| sl_name := "__name__"; sl_op := MEq; sl_val := "process_cpu" |}; {| sl_name := "__sample_type__"; sl_op := MEq; sl_val := "cpu" |};
+   {| sl_name := "pod"; sl_op := MEq; sl_val := "p-1" |}].
+Example prof_partial_hypotheses_met :
+  pdb_ok pw_series /\ (List.length (snd (split_selectors (map prof_selector_val pg_sels))) <= 8)%nat /\
+  (forall sel, List.In sel pg_sels -> selector_guard re_none pw_series sel) /\
+  prof_fp_sel re_none 19675 19675 (map prof_selector_val pg_sels) (pgin_of pw_series) = [61%N].
+Proof.
+  split; [exact pw_db_ok|]. split; [cbn; lia|]. split; [|vm_compute; reflexivity].
+  intros sel [<-|[<-|[<-|[]]]] Hn; try discriminate Hn. left. reflexivity.
+Qed.
